@@ -112,7 +112,7 @@ func noLatestTxStates(files []*ast.File, fn string, ce *constEnv) []string {
 			cc := c.(*ast.CaseClause)
 			if cc.List == nil {
 				// default: must touch LatestTx
-				if !strings.Contains(nodeString(cc), "LatestTx") {
+				if !strings.Contains(c06CaseBodyString(cc), "LatestTx") {
 					fail("clientdb.%s: default case does not handle LatestTx", fn)
 				}
 				continue
@@ -135,7 +135,7 @@ func noLatestTxStates(files []*ast.File, fn string, ce *constEnv) []string {
 	return res
 }
 
-func nodeString(n ast.Node) string {
+func c06CaseBodyString(n ast.Node) string {
 	var sb strings.Builder
 	for _, s := range n.(*ast.CaseClause).Body {
 		sb.WriteString(stmtString(s))
